@@ -191,6 +191,24 @@ async def s_abor_while_waiting(ctl):
     await ctl.cmd(c, "QUIT")
 
 
+async def s_transfer_then_quit_pipelined(ctl):
+    """a peer that sends QUIT right behind a transfer command, in one segment, gets its 221, drops the control
+    connection and leaves the data connection it had made idle: the session ends and gives everything back"""
+    c = await ctl.client()
+    await ctl.login(c)
+    await ctl.cmd(c, "EPSV")
+    await ctl.data(c)
+    await ctl.send(c, "STOR up.bin\r\nQUIT")
+    await ctl.loop.settle()
+    c2 = await ctl.client()
+    await ctl.login(c2)
+    await ctl.cmd(c2, "EPSV")
+    await ctl.data(c2)
+    c2.data[1].transport.peer.hold = True
+    await ctl.send(c2, "RETR big.bin\r\nQUIT")
+    await ctl.loop.settle()
+
+
 async def s_two_sessions(ctl):
     a = await ctl.client()
     b = await ctl.client()
@@ -270,6 +288,7 @@ def corpus(thorough=False):
         Scenario("quit", s_quit),
         Scenario("abor", s_abor, tree=TREE_BIG, server_kwargs=small_blocks),
         Scenario("abor-while-waiting", s_abor_while_waiting, server_kwargs={"wait_future_timeout": 5}),
+        Scenario("transfer-quit-pipelined", s_transfer_then_quit_pipelined, tree=TREE_BIG, server_kwargs=small_blocks),
         Scenario("two-sessions", s_two_sessions, tree=TREE_BIG, server_kwargs=small_blocks),
         Scenario("limits", s_two_sessions, tree=TREE_BIG, server_kwargs={"block_size": 64, "maximum_connections": 3}),
         Scenario("pool", s_pasv_twice, tree=TREE_BIG, server_kwargs={"data_ports": [41001, 41002]}),
